@@ -107,7 +107,7 @@ Lemma rs_lit_exact q cfg f sc s l :
   = spec_lit MRs cfg (spec_file_exempt MRs f) sc s l.
 Proof.
   intros Hsc Hsite Hin Hp. unfold site_good in Hsite.
-  apply andb_prop in Hsite. destruct Hsite as [H123 Hlits]. apply andb_prop in H123. destruct H123 as [H12 _].
+  apply andb_prop in Hsite. destruct Hsite as [H123 Hlits]. apply andb_prop in H123. destruct H123 as [H123 _]. apply andb_prop in H123. destruct H123 as [H12 _].
   apply andb_prop in H12. destruct H12 as [Hctx _].
   rewrite forallb_forall in Hlits. specialize (Hlits l Hin).
   unfold rs_site_report, spec_lit. cbn [r_type r_text r_anc r_line].
